@@ -71,11 +71,17 @@ impl ValidatorSync for KeepUniqueValidator {
                                 // If named group "value" exists use it, otherwise use whole match
                                 if let Some(m) = c.name("value") {
                                     let range = m.range();
-                                    Some((m.as_str(), range.start + 1..=range.end))
+                                    Some((
+                                        m.as_str(),
+                                        range.start + 1..=range.end.max(range.start + 1),
+                                    ))
                                 } else {
                                     c.get(0).map(|m| {
                                         let range = m.range();
-                                        (m.as_str(), range.start + 1..=range.end)
+                                        (
+                                            m.as_str(),
+                                            range.start + 1..=range.end.max(range.start + 1),
+                                        )
                                     })
                                 }
                             } else {
